@@ -1,10 +1,156 @@
 import Driver.Common
-/-! Judge for C10: not built yet (stub so that the target exists). -/
-open Lean Driver
+import EgVerif.Spec.Retry
+/-! Judge for C10: runs `Model.Retry` and `Spec.Retry` on every harness case. -/
+open Lean Driver EgVerif.Retry
 
 namespace Driver.C10
 
-def judges : List (String × Judge) := []
+def parseBackend (s : String) : Backend :=
+  if s == "ok" then .respond 200
+  else if s.startsWith "s:" then
+    let c := ((s.drop 2).toString.toNat?).getD 200
+    .respond (if c < 100 || c > 599 then 200 else c)
+  else if s == "bad" then .badResp
+  else if s == "hang" then .hang
+  else .netErr
+
+structure Req where
+  stream : Bool
+  script : List String
+  cancel : String
+  at_ : Nat
+
+def parseReq (j : Json) : Req :=
+  { stream := optBool j "stream",
+    script := match getStrList j "script" with | .ok l => l | .error _ => [],
+    cancel := optStr j "cancel",
+    at_ := (optInt j "at").toNat }
+
+def Req.backend (r : Req) (k : Nat) : Backend :=
+  match r.script[k]? with
+  | some s => parseBackend s
+  | none => match r.script.getLast? with
+    | some s => parseBackend s
+    | none => .netErr
+
+/-- from which attempt on the client's context is cancelled -/
+def Req.gone (r : Req) : Option Nat :=
+  if r.cancel == "before" then some 0
+  else if r.cancel == "during" then some r.at_
+  else none
+
+def Req.env (r : Req) (timeout : Nat) : Env :=
+  let goneAt (k : Nat) : Bool := match r.gone with | some j => decide (k ≥ j) | none => false
+  { attempt := fun k => meet timeout (goneAt k) (r.backend k),
+    jitter := fun _ => 0,
+    done := fun k => goneAt k || (r.cancel == "backoff" && decide (k ≥ r.at_)) }
+
+structure Acc where
+  cbModel : CB
+  cbSpec : CB
+  agree : Bool := true
+  spec : Bool := true
+  sig : String := ""
+  tags : List String := []
+  nontrivial : Bool := false
+  expected : List Json := []
+
+def judge : Judge := liftJudge fun input obs => do
+  match obsPanic obs with
+  | some m => pure { agree := false, spec := false, sig := "panic:case", note := m, tags := ["panic"] }
+  | none =>
+  match getStr obs "error" with
+  | .ok e => pure { agree := false, spec := true, note := "harness-error: " ++ e, nontrivial := false, tags := ["harness-error"] }
+  | .error _ =>
+  let timeout := (optInt input "timeoutNs").toNat
+  let fc := match getIntList input "failureCodes" with | .ok l => l.map Int.toNat | .error _ => []
+  let retryJ := (input.getObjVal? "retry").toOption.getD Json.null
+  let waitNs := optInt obs "waitNs"
+  let retry : Option RetryPolicy :=
+    match retryJ with
+    | .null => none
+    | j =>
+      let fDen := (optInt j "fDen" 1).toNat
+      let fNum := (optInt j "fNum").toNat
+      let (fNum, fDen) := if fDen == 0 then (0, 1) else (fNum, fDen)
+      some { maxAttempts := optInt j "max", wait := createWrapper waitNs,
+             exponential := optStr j "backoff" == "exponential", fNum := fNum, fDen := fDen }
+  let cbJ := (input.getObjVal? "cb").toOption.getD Json.null
+  let hasCB := match cbJ with | .null => false | _ => true
+  let cb0 : CB := { minCalls := (optInt cbJ "minCalls").toNat, threshold := (optInt cbJ "threshold").toNat }
+  let pool : Pool := ⟨fc, retry, hasCB⟩
+  let reqsIn := (← getArr input "reqs").toList.map parseReq
+  let reqsObs := (← getArr obs "reqs").toList
+  let baseTags : List String :=
+    (match retry with
+     | none => ["no-retry"]
+     | some p => [s!"max={p.maxAttempts}", if p.exponential then "backoff:exponential" else "backoff:fixed",
+                  if p.fNum == 0 then "f=0" else if p.fNum == p.fDen then "f=1" else "0<f<1"]
+                 ++ (if waitNs ≤ 0 then ["default-wait"] else []))
+    ++ (if hasCB then ["cb"] else []) ++ (if timeout > 0 then ["timeout"] else [])
+  let step (acc : Acc) (ro : Req × Json) : Acc :=
+    let (r, o) := ro
+    let env := r.env timeout
+    let calls := (optInt o "calls").toNat
+    let gaps := match getIntList o "gaps" with | .ok l => l.map Int.toNat | .error _ => []
+    let result := optStr o "result"
+    let status := (optInt o "status").toNat
+    let state := (optInt o "cbState").toNat
+    let late := optBool o "late"
+    let pan := optStr o "panic"
+    let ob : ReqObs := ⟨calls, gaps, result, status⟩
+    -- model
+    let permitted := !acc.cbModel.isOpen
+    let m := handle pool r.stream permitted env
+    let mCalls := (EgVerif.Retry.calls m.events).length
+    let cbM := match m.cbRecords with | f :: _ => acc.cbModel.record f | [] => acc.cbModel
+    let mState := if hasCB then cbM.state else 0
+    let gOK := gapsOK pool ob && gaps.length + 1 == (if calls == 0 then 1 else calls)
+    let agree := calls == mCalls && result == m.result && some status == m.status && state == mState
+      && gOK && !late && pan == ""
+    -- spec on the observation
+    let shortObs := result == "shortCircuited"
+    let s1 := calls ≤ maxCalls pool r.stream
+    let s2 := !r.stream || calls ≤ 1
+    let s3 := noCallAfterSuccess fc env.attempt calls
+    let s4 := if shortObs then calls == 0 && status == 503 && acc.cbSpec.isOpen && hasCB
+              else calls ≥ 1 && lastAttemptSeen fc env.attempt ob
+    let s5 := gapsOK pool ob
+    let goneAt : Option Nat := match r.gone with
+      | some j => some j
+      | none => if r.cancel == "backoff" then some r.at_ else none
+    let s6 := cancelOK goneAt calls
+    let s7 := !late && pan == ""
+    let cbS := if hasCB && !shortObs then acc.cbSpec.record (result != "") else acc.cbSpec
+    let s8 := !hasCB || (state == cbS.state && (shortObs == acc.cbSpec.isOpen))
+    let spec := s1 && s2 && s3 && s4 && s5 && s6 && s7 && s8
+    let sig := if spec then "" else
+      if pan != "" then "panic:handle"
+      else if late then "hang:request-did-not-return"
+      else if !s2 then "stream:re-sent"
+      else if !s1 then "retry:more-than-maxAttempts"
+      else if !s3 then "retry:attempt-after-success"
+      else if !s6 then "cancel:attempt-after-cancel"
+      else if !s4 then "result:not-the-last-attempt"
+      else if !s5 then "backoff:gap-too-short"
+      else "cb:not-one-record-per-request"
+    let t := (if r.stream then ["stream"] else []) ++ (if r.cancel != "" then ["cancel:" ++ r.cancel] else [])
+      ++ (if calls ≥ 2 then ["retried"] else []) ++ (if shortObs then ["short-circuited"] else [])
+      ++ (if result == "timeout" then ["408"] else []) ++ (if result == "" then ["success"] else ["result:" ++ result])
+      ++ (if hasCB && cbS.isOpen && !acc.cbSpec.isOpen then ["cb-opens"] else [])
+    let nt := calls ≥ 2 || r.cancel != "" || shortObs || result == "timeout" || (r.stream && retry.isSome)
+    { cbModel := cbM, cbSpec := cbS, agree := acc.agree && agree, spec := acc.spec && spec,
+      sig := if acc.sig != "" then acc.sig else sig,
+      tags := acc.tags ++ t.filter (fun x => !acc.tags.contains x),
+      nontrivial := acc.nontrivial || nt,
+      expected := acc.expected ++ [Json.mkObj [("calls", Json.num (Int.ofNat mCalls)), ("result", m.result),
+        ("status", Json.num (Int.ofNat (m.status.getD 0))), ("cbState", Json.num (Int.ofNat mState))]] }
+  let acc := (reqsIn.zip reqsObs).foldl step { cbModel := cb0, cbSpec := cb0 }
+  let lenOK := reqsObs.length == (if reqsIn.length > 64 then 64 else reqsIn.length)
+  pure { agree := acc.agree && lenOK, spec := acc.spec, expected := Json.arr acc.expected.toArray,
+         tags := baseTags ++ acc.tags, nontrivial := acc.nontrivial, sig := acc.sig }
+
+def judges : List (String × Judge) := [("C10", judge)]
 
 end Driver.C10
 
